@@ -8,7 +8,7 @@ a secret.  A report whose stack has a frame in <repo>/src is a violation, keyed 
 (entry, innermost library frame function).  Each job is also run natively (no valgrind)
 and the digests of the outputs must agree.
 """
-import os, re, sys, json, subprocess, fnmatch, zlib
+import os, re, sys, json, subprocess, fnmatch, zlib, threading
 import xml.etree.ElementTree as ET
 from vrun import Job
 import vbuild
@@ -114,15 +114,61 @@ for _w in ('i15', 'i31'):
 # an item is active only while its hook is absent from the tree under test
 ALLOW = [a for a in ALLOW if not _hook_present(*a['hook'])]
 
-# Memcheck imprecision (NOT declassification): memcheck flags `a == b` when both are secret-derived even if a - b is public.
-# Each item is justified by the machine code and is CONFIRMED at run time: the same command is executed under
-# `valgrind --tool=lackey` for four different secrets (seeds) and the guest instruction count, the number of conditional
-# branches and the number of taken branches must be identical; otherwise the report is a violation.
+# Memcheck imprecision (NOT declassification): memcheck flags `a == b` when both are secret-derived even if a - b is public
+# (compilers rewrite loop counters that way).  Each item is justified by the machine code and is CONFIRMED at run time by a
+# differential execution: a family of runs that differ ONLY in secrets (other keys/plaintexts; for CBC records also other padding
+# lengths, MAC positions and defect classes with the SAME record length and verdict) is executed under
+# `valgrind --tool=callgrind --toggle-collect=<function>`; the instruction count (Ir) and the number of executed conditional
+# branches (Bc) inside the function must be identical for all members with the same public shape; otherwise the report stays a
+# violation.
+def _cbc_family(job):
+    """CBC records with the same total length: different plaintext lengths / padding lengths / defects."""
+    a = job.args
+    impl, h, ver = a[a.index('--impl') + 1], a[a.index('--hash') + 1], a[a.index('--curve') + 1]
+    hlen = {'md5': 16, 'sha1': 20, 'sha256': 32, 'sha384': 48}[h]
+    bs = 8 if impl.startswith('des') else 16
+
+    def tot(sz, var):
+        padn = bs - 1 - ((sz + hlen) % bs)
+        if var in ('good_pad_long', 'bad_padbyte_first', 'bad_padbyte_mid', 'bad_shift'):
+            while padn + bs <= 255:
+                padn += bs
+        elif var in ('good_pad_mid', 'bad_padbyte_last'):
+            padn += 4 * bs
+        return sz + hlen + padn + 1
+    T = tot(100, 'good_pad_long')
+    fam = []
+    for var in ('good_pad_long', 'good', 'good_pad_mid', 'bad_padbyte_mid', 'bad_mac_last', 'bad_shift', 'bad_padbyte_first',
+                'bad_mac_first', 'bad_padbyte_last', 'bad_data'):
+        for sz in range(T, 0, -1):
+            if tot(sz, var) == T:
+                fam.append(['rec_cbc_decrypt', '--impl', impl, '--curve', ver, '--hash', h, '--var', var, '--size', str(sz),
+                            '--seed', a[a.index('--seed') + 1]])
+                break
+    return fam
+
+
+def _seed_family(job, n=4):
+    i = job.args.index('--seed')
+    out = []
+    for k in range(n):
+        args = list(job.args)
+        args[i + 1] = str(int(args[i + 1]) + k)
+        out.append(args)
+    return out
+
+
 ARTEFACTS = [
-    dict(fn='br_aes_ct64_ctrcbc_ctr', line='for (i = 0; i < j; i += 4) {',
+    dict(fn='br_aes_ct64_ctrcbc_ctr', line='for (i = 0; i < j; i += 4) {', family=_seed_family,
+         cache=lambda job: (job.flavour, 'eax', job.args[job.args.index('--impl') + 1]),
          why='gcc -Os/-O2 eliminates the loop counter i in favour of the CTR word iv3 (aes_ct64_ctrcbc.c:84-91: loop test compiled to '
              '`cmp iv3_start + (j+3)/4, iv3`); iv3 is secret-derived in EAX (OMAC of the nonce) but the trip count is (j+3)/4 whatever '
              'its value'),
+    dict(fn='cbc_decrypt', line='for (u = min_len; u < max_len; u ++) {', family=_cbc_family,
+         cache=lambda job: (job.flavour,) + tuple(job.args[job.args.index(k) + 1] for k in ('--impl', '--hash', '--curve')),
+         why='gcc -O2 rewrites both loops of ssl_rec_cbc.c:149 and :168 with the counter u - len and the bound max_len - len '
+             '(`sub %r12d,%ecx` / `sub %r12d,%r10d` / `cmp %r10d,%ecx; jne`): both sides depend on the secret len, their difference '
+             'max_len - u does not; the trip count is max_len - min_len whatever len is'),
 ]
 
 
@@ -360,6 +406,9 @@ def jobs(tier, seed):
             for s in sp:
                 out.append((s['cost'] * (3 if fl == 'ct-O0' else 1), mkjob(s, fl, seed, tier)))
     out.sort(key=lambda t: -t[0])        # long jobs first
+    only = os.environ.get('C08_ONLY')      # debugging aid: run only the jobs whose name contains this text (plus the canaries)
+    if only:
+        out = [t for t in out if only in t[1].name or t[1].tag.get('canary')]
     return [j for _, j in out]
 
 
@@ -458,25 +507,55 @@ def _native(job):
     return _native_cache[k]
 
 
-def _differential(job, n=4):
-    """Same command, n different secrets, under lackey: identical instruction / branch counts?"""
-    i = job.args.index('--seed')
-    base = int(job.args[i + 1])
-    vals = []
-    for k in range(n):
-        args = list(job.args)
-        args[i + 1] = str(base + k)
+_diff_cache = {}
+_diff_lock = threading.Lock()
+
+
+def _differential(job, art):
+    """-> (identical, detail); result cached per code site (flavour, implementation...)."""
+    key = (art['fn'],) + tuple(art['cache'](job))
+    with _diff_lock:
+        if key not in _diff_cache:
+            _diff_cache[key] = _differential_run(job, art, key)
+        return _diff_cache[key]
+
+
+def _differential_run(job, art, key):
+    groups = {}
+    detail = []
+    ok = True
+    for args in art['family'](job):
+        cg = os.path.join(XMLDIR, 'cg.%d.%d.out' % (os.getpid(), abs(zlib.crc32(' '.join(args + list(key)).encode()))))
         try:
-            p = subprocess.run(['valgrind', '--tool=lackey', job.bin] + args + ['--nodigest', '1'], stdout=subprocess.PIPE, stderr=subprocess.PIPE,
-                               timeout=600, cwd=vbuild.HERE, stdin=subprocess.DEVNULL)
-        except subprocess.TimeoutExpired:
-            return False, 'lackey timeout'
-        e = p.stderr.decode(errors='replace')
-        m = [re.search(r'%s\s*([\d,]+)' % k2, e) for k2 in ('guest instrs:', 'total:', 'taken:')]
-        if p.returncode != 0 or not all(m) or 'STATUS expected' not in p.stdout.decode(errors='replace'):
-            return False, 'lackey run failed'
-        vals.append(tuple(x.group(1) for x in m))
-    return len(set(vals)) == 1, ';'.join('/'.join(v) for v in vals)
+            p = subprocess.run(['valgrind', '--tool=callgrind', '--toggle-collect=' + art['fn'], '--branch-sim=yes',
+                                '--callgrind-out-file=' + cg, job.bin] + args + ['--nodigest', '1'],
+                               stdout=subprocess.PIPE, stderr=subprocess.PIPE, timeout=900, cwd=vbuild.HERE, stdin=subprocess.DEVNULL)
+            o = p.stdout.decode(errors='replace')
+            txt = open(cg).read()
+        except (subprocess.TimeoutExpired, OSError):
+            ok = False
+            detail.append('callgrind run failed')
+            break
+        finally:
+            _rm(cg)
+        ev = re.search(r'^events: (.*)$', txt, re.M)
+        tt = re.search(r'^totals: (.*)$', txt, re.M) or re.search(r'^summary: (.*)$', txt, re.M)
+        if p.returncode != 0 or 'STATUS expected' not in o or not ev or not tt:
+            ok = False
+            detail.append('callgrind run unusable: ' + ' '.join(args))
+            break
+        d = dict(zip(ev.group(1).split(), tt.group(1).split()))
+        groups.setdefault(_field(o, 'SHAPE') or '', []).append((d.get('Ir'), d.get('Bc')))
+    if ok:
+        big = [g for g in groups.values() if len(g) >= 3]
+        if not big:
+            ok = False
+            detail.append('no group of >= 3 runs with the same public shape')
+        for shape, g in sorted(groups.items()):
+            detail.append('%s: %s' % (shape or 'same-shape', ','.join('%s/%s' % x for x in g)))
+            if len(set(g)) != 1 or int(g[0][0] or 0) <= 0:
+                ok = False
+    return ok, ' ; '.join(detail)[:600]
 
 
 def _field(out, name):
@@ -544,14 +623,16 @@ def on_job_done(job, rc, out, err, res):
         # a report with no library frame outside a canary: the harness itself branched on a secret
         res.inconclusive.append('%s: %d report(s) without a library frame: %s' % (job.name, len(har), har[0]['stack'][:300]))
     seen = {}
-    arte = [r for r in lib if _artefact(r['fn'], r['srcline'])]
-    if arte:
-        same, detail = _differential(job)
-        res.stat('artefact_differential_runs', 1)
+    for art in ARTEFACTS:
+        arte = [r for r in lib if _artefact(r['fn'], r['srcline']) is art]
+        if not arte:
+            continue
+        same, detail = _differential(job, art)
         if same:
             res.stat('reports_artefact_confirmed', len(arte))
-            res.dist('artefact_used', '%s/%s/%s' % (arte[0]['fn'], entry, fl))
-            lib = [r for r in lib if not _artefact(r['fn'], r['srcline'])]
+            res.dist('artefact_used', '%s/%s/%s' % (art['fn'], entry, fl))
+            res.dist('artefact_differential', '%s %s: %s' % (art['fn'], '/'.join(str(x) for x in art['cache'](job)), detail[:300]))
+            lib = [r for r in lib if _artefact(r['fn'], r['srcline']) is not art]
         else:
             case += ' differential=' + detail
     for r in lib:
@@ -616,6 +697,7 @@ def coverage_extra(res, tier):
                 allowlist_used=sorted(res.distinct.get('allowlist_used', ())),
                 artefacts=[dict(fn=a['fn'], line=a['line'], why=a['why']) for a in ARTEFACTS],
                 artefacts_confirmed=sorted(res.distinct.get('artefact_used', ())),
+                artefact_differentials=sorted(res.distinct.get('artefact_differential', ()))[:12],
                 skipped=sorted(res.distinct.get('skipped', ())))
 
 
